@@ -105,7 +105,7 @@ func (u *vFlakyUpstream) ExchangeContext(ctx context.Context, q []byte) (*dnsmsg
 // that is one complete frame, carrying its query's ID and question, SERVFAIL when the upstream failed.
 func VerifH_C03_StreamListener() {
 	verifrt.Unwind(120)
-	verifrt.SchedBound(1)
+	verifrt.SchedBound(1 + verifrt.Tier) // thorough: one more deviation from the default schedule
 	verifrt.CtxNoExpiry = true
 	up := &vFlakyUpstream{}
 	r := vRouter([]*rule{{upstream: &upstreamWrapper{tag: "up", u: up}}}, false)
